@@ -246,10 +246,7 @@ def make_pred(task):
         check_scores(task, scores, case, ctx, info)
         extra(task, case, args, kw, ctx, info)
         ctx.event("shape:" + case["shape"].split(":")[0])
-        if isinstance(case["ref"], dict):
-            nonempty = any(bool(v) for v in case["ref"].values()) or any(bool(v) for v in case["est"].values())
-        else:
-            nonempty = bool(case["ref"]) or bool(case["est"])
+        nonempty = any(R.sides(case))
         return nonempty
     return pred
 
